@@ -95,16 +95,70 @@ def replay_known(k):
     return False
 
 
+MODEL_LINES = 1000      # bigger ladder programs: real = per-token expectation only (the model is super-linear)
+
+
+def ladder(ctx):
+    """size ladder beyond the sweep 1..75: ONE function of 10^2 .. 10^4 body statements, and files of 10^2 .. 10^4 lines
+    made of MANY functions / classes / global code (thorough: every half decade)"""
+    if getattr(ctx, "_c01ladder", None) is None:
+        ctx._c01ladder = scan_streams.ladder_programs(ctx, ctx.pick([100, 1000, 10 ** 4], scan_streams.rungs(100, 10 ** 4)),
+                                                      ctx.pick([100, 1000, 10 ** 4], scan_streams.rungs(100, 31623)), "c01ladder",
+                                                      many_python=ctx.pick([100, 1000, 3162], scan_streams.rungs(100, 10 ** 4)))
+    return ctx._c01ladder
+
+
+def _ladder_work(desc):
+    """real analysis of a big ladder program against the expectation of its generator -> None | (observed, required)"""
+    o, text = scan_streams.ladder_program(desc)
+    exp = o.expected(programs.NESTING[desc["language"]])
+    r = sr.real_scan(desc["language"], text)
+    d = sr.decode_scan(r)
+    got = d[0] if d else r
+    if got == exp:
+        return len(exp), None
+    if d is None:
+        return len(exp), (r[:200], "%d functions" % len(exp))
+    gs, es = set(got), set(exp)
+    return len(exp), ("%d functions reported; not expected: %s" % (len(got), [x for x in got if x not in es][:3]),
+                      "%d functions; missing: %s" % (len(exp), [x for x in exp if x not in gs][:3]))
+
+
+def big_ladder_jobs(ctx):
+    return sorted((d for (_, _, _, d) in ladder(ctx) if d["lines"] > MODEL_LINES), key=lambda d: -d["lines"] * (3 if d["language"] == "Python" else 1))
+
+
+def ladder_failures(ctx, dist=None, started=None):
+    jobs = big_ladder_jobs(ctx)
+    fails = []
+    for d, (n, bad) in zip(jobs, (started or scan_streams.Heavy(_ladder_work, jobs, 10)).results()):
+        if dist is not None:
+            dist["functions"] += n
+            dist["ladder"]["%s %d" % (d["kind"], d["lines"])] = dist["ladder"].get("%s %d" % (d["kind"], d["lines"]), 0) + 1
+        if bad:
+            fails.append({"input": dict(d), "observed": bad[0], "required": bad[1]})
+    fails.sort(key=lambda f: f["input"]["lines"])
+    return len(jobs), fails[:5]
+
+
 def gen_cases(ctx):
     cases = []
+    rnd = ctx.rng("c01bom")
     for (lang, text, o) in scan_streams.canonical(ctx, ctx.pick(300, 5000), "c01"):
         cases.append((lang, text, o.expected(programs.NESTING[lang])))
+        if rnd.random() < 0.08:
+            # configuration variant: the file was saved with a UTF-8 signature
+            cases.append((lang,) + scan_streams.with_bom(text, o.expected(programs.NESTING[lang])))
     for (lang, text, o) in scan_streams.sweep(ctx, 75):
         cases.append((lang, text, o.expected(programs.NESTING[lang])))
+    for (lang, text, o, d) in ladder(ctx):
+        if d["lines"] <= MODEL_LINES:
+            cases.append((lang, text, o.expected(programs.NESTING[lang])))
     return cases
 
 
 def correspond(ctx):
+    heavy = scan_streams.Heavy(_ladder_work, big_ladder_jobs(ctx), 10)      # runs while the smaller programs go through the model
     cases = gen_cases(ctx)
     reg = [(l, c, None) for (l, c) in REGRESS]
     allc = reg + cases
@@ -112,7 +166,10 @@ def correspond(ctx):
     model = sr.model_scan_many([sr.scan_request(l, c) for (l, c, _) in allc])
     dis, fails = [], []
     nontrivial = set()
-    dist = {"functions": 0, "nested": 0, "max_len": 0, "per_language": {}}
+    dist = {"functions": 0, "nested": 0, "max_len": 0, "per_language": {}, "ladder": {}}
+    for (_, _, _, d) in ladder(ctx):
+        if d["lines"] <= MODEL_LINES:
+            dist["ladder"]["%s %d" % (d["kind"], d["lines"])] = dist["ladder"].get("%s %d" % (d["kind"], d["lines"]), 0) + 1
     for (lang, code, exp), r, m in zip(allc, real, model):
         inp = {"language": lang, "code": code}
         if r != m:
@@ -134,6 +191,12 @@ def correspond(ctx):
         got = [(n, ln) for (n, _, _, _, _, ln) in d[0]] if d else None
         if got != want:
             fails.append({"input": {"language": lang, "code": code}, "observed": got, "required": want})
+    nladder, lfails = ladder_failures(ctx, dist, heavy)
+    fails += lfails
+    dist["byte_order_mark"] = sum(1 for (l, c, e) in cases if c.startswith(scan_streams.BOM))
+    dist["constructors_destructors"] = sum(1 for (l, c, e) in cases if e and l in ("C++", "Java", "C#") and len({x[0] for x in e}) < len(e) or any(x[0].startswith(("K", "L")) for x in (e or [])))
+    import re as _re
+    dist["cpp_constructor_first_after_access_specifier"] = sum(1 for (l, c, e) in cases if l == "C++" and _re.search(r":[ \t]*(//[^\n]*|/\*[^\n]*\*/)?[ \t]*\n([ \t]*(//[^\n]*|/\*[^\n]*\*/)?[ \t]*\n)*[ \t]*(explicit |inline )?[KL]\d+\(", c))
     # program forests of the Lean type `Prog PTok`: the expectation is the TREE report computed by the
     # model driver (`Props/C01tree.lean`, `C01text.lean`: for every forest satisfying the decidable
     # hypotheses that the driver evaluates, text -> lex -> scan_file gives exactly that report)
@@ -169,8 +232,8 @@ def correspond(ctx):
     tr["rule"] += " PLUS " + mk["rule"]
     nontrivial |= {("tree",) + tuple(x) for x in []}
     return {
-        "evaluations": len(allc) + tr["evaluations"], "distinct_nontrivial": len(nontrivial) + tr["distinct_nontrivial"],
-        "rule": "canonical-fragment programs from the per-language grammar (functions, methods, classes, global code, nesting, control blocks, callbacks, initialisers, comments and blank lines anywhere, string literals with delimiters, multi-line headers, both brace styles, brace groups in parameters, async, decorators, docstrings) + exhaustive body-length sweep 1..75 per language; three-way: real = model = per-token expectation; non-trivial = distinct programs with at least one expected function. PLUS " + tr["rule"],
+        "evaluations": len(allc) + nladder + tr["evaluations"], "distinct_nontrivial": len(nontrivial) + nladder + tr["distinct_nontrivial"],
+        "rule": "canonical-fragment programs from the per-language grammar (functions, methods, classes, global code, nesting, control blocks, callbacks, initialisers, comments and blank lines anywhere, string literals with delimiters, multi-line headers, both brace styles, brace groups in parameters, async, decorators, docstrings; C++ / Java / C#: constructors and destructors of the enclosing class, C++ access specifiers `public:` ... in front of any member; 8 % of the programs also behind a byte order mark) + exhaustive body-length sweep 1..75 per language + size ladder: one function of 10^2, 10^3, 10^4 body statements and files of 10^2, 10^3, 10^4 lines of many functions (above 1000 lines: real = expectation only); three-way: real = model = per-token expectation; non-trivial = distinct programs with at least one expected function. PLUS " + tr["rule"],
         "samples": [{"language": l, "code": c[:200], "expected": e} for (l, c, e) in cases[:2]] + tr["samples"][:1],
         "exhaustive": False, "distribution": dist,
         "disagreements": dis[:50], "oracle_failures": fails[:50],
@@ -213,11 +276,15 @@ def search(ctx, hints):
     fails += tr["oracle_failures"] + tree_stream.regressions()
     fails += pytree_stream.correspond(ctx.rng("pytreesearch"), 500, sweep_upto=20)["oracle_failures"]
     fails.sort(key=lambda f: len(f["input"]["code"]))
-    return fails[:10]
+    return fails[:10] + ladder_failures(ctx)[1][:2]
 
 
 def replay(payload):
     inp = payload["input"]
+    if inp.get("stream") == "ladder":
+        n, bad = _ladder_work(inp)
+        print("%s: generated program (%s, >= %d lines, %d functions expected) -> %s" % (inp["language"], inp["kind"], inp["lines"], n, bad or "as expected"))
+        return not bad
     r = sr.real_scan(inp["language"], inp["code"])
     d = sr.decode_scan(r)
     got = d[0] if d else r
